@@ -231,6 +231,8 @@ def grade(mesh, nblocks, via_write=False):
         return "inconsistent"
     except NonTermination:
         return "nonterm"
+    except Exception as e:      # (the engine's own control-flow exceptions are BaseExceptions and pass through)
+        return "crash:" + type(e).__name__
     finally:
         _CALLS["cap"] = 10 ** 9
         if path is not None:
